@@ -409,6 +409,8 @@ class ClipSim:
                 elif kind == 'dask':
                     out.stats['dask_tasks'] += payload['executed']
                     out.stats['dask_reordered'] += payload['reordered']
+                    out.stats['dask_graphs'] += payload.get('graphs', 0)
+                    out.stats['dask_graphs_completed_in_non_fifo_order'] += payload.get('graphs_non_fifo', 0)
             out.event('lifetime_end', lt=li, status=res['status'])
             out.stats[f'end.{res["status"]}'] += 1
             # lifetime boundary: in-memory slots die, files stay
@@ -807,9 +809,10 @@ def _clip_lifetime(ctx, plan, li, scratch, acked_files=()):
             elif name == 'load':
                 extra['work_dropped'] = op['res'] in dropped
                 ctl.begin_op(name, op.get('faults'))
-                before = (sched.executed, sched.reordered)
+                before = (sched.executed, sched.reordered, sched.graphs, sched.graphs_reordered)
                 obs['ds'] = observe.observe_dataset(results[op['res']], polygons=True)
-                ctx.emit('dask', executed=sched.executed - before[0], reordered=sched.reordered - before[1])
+                ctx.emit('dask', executed=sched.executed - before[0], reordered=sched.reordered - before[1],
+                         graphs=sched.graphs - before[2], graphs_non_fifo=sched.graphs_reordered - before[3])
             elif name == 'save':
                 extra['work_dropped'] = op['res'] in dropped
                 ctl.begin_op(name, op.get('faults'))
